@@ -105,6 +105,19 @@ theorem str_typed_architecture_pinned_violates :
     evalGuard dispatch (.s (.str (ofStr "normunet") true)) (fun _ => .unknown) = some true ∧
     evalGuard cg (.s (.str (ofStr "FR") true)) (fun _ => .unknown) = some true := by decide
 
+/-- **no `str`-typed field of any config class defaults to an enum member** — decided twice: on the introspected
+dataclasses (`strFieldEnumDefaults`, the exact list) and on the generated schema table (no `str` field's default is the text
+`Cls.NAME` of a member of any enum the schema knows).  This is the well-formedness condition whose violation caused the
+misrouted defaults of the pinned tree. -/
+theorem str_fields_hold_no_enum_member :
+    strFieldEnumDefaults = [] ∧ ∀ s ∈ schemas, strDefaultsPlain gtables s.2 = true := by decide +kernel
+
+/-- the predicate bites on the pinned declaration `denoiser_architecture: str = ModelName.RESNET` -/
+theorem str_field_enum_default_pinned_violates :
+    strDefaultsPlain gtables (.struct 0 [(sym "denoiser_architecture", .str, .str (sym "ModelName.RESNET") 0)]) = false ∧
+    strDefaultsPlain gtables (.struct 0 [(sym "denoiser_architecture", .str, .str (sym "resnet") 0)]) = true := by
+  decide +kernel
+
 /-- non-vacuity: there are such dispatches, and an enum-typed field passes where the `str`-typed one does not -/
 example : softRows.length ≥ 4 := by decide +kernel
 example : modelBlockNamesOk tables gtables (.map [(sym "model_name", .str (sym "vsharp.vsharp.VSharpNet") 0),
@@ -213,6 +226,43 @@ theorem flatten_injective :
 /-- a block that sets `crop` both flat and under `cropping` is caught -/
 example : rawFlattenInjective tables (.map [(tables.kTransforms, .map [(sym "crop", .null),
     (sym "cropping", .map [(sym "crop", .null)])])]) = false := by decide +kernel
+
+/-! ## the merge stage: what is checked and what is not (proved in `Lemmas/C20Guard.lean`) -/
+
+/-- **specification of the merge stage**: `mergeCheck` accepts a file exactly when it is a map with a `model` block, every
+model block (`model`, then the additional models) names importable classes and merges into its config class, and every
+top-level key passes its own check — no key is skipped, none is looked at twice (`merge_order_as_modelled` ties this to
+the statement order of `setup_common_environment`) -/
+theorem mergeCheck_spec (t : Tables) (file : Val) :
+    mergeCheck t file = .ok () ↔
+      ∃ kvs blocks, file = .map kvs ∧ modelBlocks t file = .ok blocks ∧
+        (∀ b ∈ blocks, checkModelBlock t b.2 = .ok ()) ∧ (∀ kv ∈ kvs, checkTopKey t file kv.1 kv.2 = .ok ()) :=
+  Config.mergeCheck_ok_iff t file
+
+/-- **what the real merge does not check**: a `List[Any]` field accepts every list whatsoever … -/
+theorem list_any_unchecked (xs : List Val) : validate (.list .any) (.list xs) = .ok () := Config.list_any_unchecked xs
+
+def isListAny : Ty → Bool
+  | .list .any => true
+  | _ => false
+
+/-- … and `training.datasets` / `validation.datasets` *are* `List[Any]` fields of the generated schema: the merge never
+looks inside a training / validation dataset block -/
+theorem dataset_blocks_untyped :
+    isListAny (tyAt tables.training [tables.kDatasets]) = true ∧
+    isListAny (tyAt tables.validation [tables.kDatasets]) = true := by decide +kernel
+
+/-- **what *is* checked for such a block** (by the consumers, `build_transforms_from_environment`): a `transforms` map with
+a `masking` entry `build_masking_function` can be called with, and flattened transform keys that are builder parameters —
+nothing else; the values are the business of the guard theorems above -/
+theorem rawBlockCheck_spec (t : Tables) (b : Val) :
+    rawBlockCheck t b = .ok () ↔
+      ∃ kvs m, b.get? t.kTransforms = some (.map kvs) ∧ lookup t.kMasking kvs = some m ∧
+        maskingCheck t m = .ok () ∧ transformsCheck t (.map kvs) = .ok () :=
+  Config.rawBlockCheck_ok_iff t b
+
+/-- the hypotheses are satisfiable: a shipped file meets the specification -/
+example : ∃ c ∈ configs, mergeCheck tables c.2 = .ok () := by decide +kernel
 
 /-! ## what a verdict means (proved in `Lemmas/C20Guard.lean`) -/
 
